@@ -1,8 +1,8 @@
 package vnet
 
 import (
-	"fmt"
 	"net/netip"
+	"strconv"
 	"syscall"
 	"time"
 )
@@ -81,7 +81,7 @@ func (r *req) sortKey() string {
 	if r.g != nil {
 		name = r.g.Name
 	}
-	return fmt.Sprintf("%s|%02d|%d|%s", name, r.kind, r.sockID(), r.tag)
+	return name + "|" + pad(int64(r.kind), 2) + "|" + itoa(int64(r.sockID())) + "|" + r.tag
 }
 
 func (r *req) sockID() int {
@@ -96,7 +96,7 @@ func (r *req) describe() string {
 	if r.g != nil {
 		name = r.g.Name
 	}
-	return fmt.Sprintf("%s %s sock=%d %s", name, kindNames[r.kind], r.sockID(), r.tag)
+	return name + " " + kindNames[r.kind] + " sock=" + itoa(int64(r.sockID())) + " " + r.tag
 }
 
 // wakeTime: the instant at which a parked request becomes enabled by the passage of time alone.
@@ -554,7 +554,7 @@ func (s *Sim) doSetDeadline(r *req) {
 	if r.which&2 != 0 {
 		k.wdl = r.dl
 	}
-	s.logG(r.g, Ev{Kind: "set-deadline", Sock: k.ID, N: r.which, Note: fmt.Sprint(int64(r.dl))})
+	s.logG(r.g, Ev{Kind: "set-deadline", Sock: k.ID, N: r.which, Note: itoa(int64(r.dl))})
 	s.reply(r, resp{})
 }
 
@@ -666,7 +666,7 @@ func (s *Sim) doRead(r *req, alt int) {
 		if expired {
 			s.Stats["tie:data-at-deadline"]++
 		}
-		s.logG(r.g, Ev{Kind: "read", Sock: k.ID, Src: d.from.String(), N: n, Data: d.data[:n], Note: fmt.Sprint(len(d.data))})
+		s.logG(r.g, Ev{Kind: "read", Sock: k.ID, Src: d.from.String(), N: n, Data: d.data[:n], Note: itoa(int64(len(d.data)))})
 		s.reply(r, resp{n: n, from: d.from, data: d.data[:n]})
 		return
 	}
@@ -814,4 +814,17 @@ func (s *Sim) toSim(t time.Time) time.Duration {
 		d = 0
 	}
 	return d
+}
+
+// itoa/pad: formatting without fmt. The scheduler and the hooks run with race-detector
+// synchronisation events ignored, so they must not touch anything that hands memory between
+// goroutines through sync.Pool (fmt does).
+func itoa(v int64) string { return strconv.FormatInt(v, 10) }
+
+func pad(v int64, w int) string {
+	s := strconv.FormatInt(v, 10)
+	for len(s) < w {
+		s = "0" + s
+	}
+	return s
 }
